@@ -1,6 +1,6 @@
 (* C17 - option values depend only on the input and survive a save/load cycle.
    Statements about the executable model coq/C17/OptionsModel.v (sc_options.c as repaired by bb105d5,
-   5b6f754, ede139e, 69d3f48, 5918853, 6404e3e, 5a6ac04, bd8c44f; iniparser as repaired by cfc9e38; key-value lookup) and
+   5b6f754, ede139e, 69d3f48, 5918853, 6404e3e, 5a6ac04, bd8c44f, 57534b2; iniparser as repaired by cfc9e38; key-value lookup) and
    coq/C17/GetoptModel.v (GNU getopt_long).  The model is tied to /repo on every run by the
    correspondence run of checks/C17.py.  strtod and "%.16g" are arbitrary functions in every theorem.
    This file contains only statements, `exact` proofs, Print Assumptions and Examples. *)
@@ -71,6 +71,35 @@ Theorem C17_size_option_denotes : forall n rest, (match rest with [] => True | c
   size_outcome (print_dec n ++ rest) = if (0 <=? n) && (n <=? LONG_MAX) then Some n else None.
 Proof. exact size_outcome_dec. Qed.
 Print Assumptions C17_size_option_denotes.
+
+(* SC_OPTION_DOUBLE (57534b2), for EVERY strtod: the outcome depends on what strtod says about the text alone; the
+   error return exactly when ERANGE is raised AND the result is +-0 or +-inf *)
+Theorem C17_double_option_outcome : forall strtod w o k it a, it_type it = TDouble ->
+  let r := apply_item strtod w o k it (Some a) in
+  if dbl_error (fst (strtod a)) (snd (strtod a)) then fst r = -1 /\ w_store (snd r) = w_store w
+  else fst r = 0 /\ w_store (snd r) = st_set (w_store w) (it_var it) (VD (fst (strtod a))).
+Proof. exact apply_double. Qed.
+Print Assumptions C17_double_option_outcome.
+
+Theorem C17_double_error_rule : forall x e, dbl_error x e = true <-> e = true /\ (dbl_mag x = 0 \/ dbl_mag x = DBL_INF).
+Proof. exact dbl_error_spec. Qed.
+Print Assumptions C17_double_error_rule.
+
+(* every finite nonzero bit pattern - normal or subnormal (0 < magnitude < 2^52), either sign - is accepted whether or
+   not libc raised ERANGE for it *)
+Theorem C17_double_finite_nonzero_accepted : forall x e, 0 < dbl_mag x < DBL_INF -> dbl_error x e = false.
+Proof. exact dbl_finite_nonzero_accepted. Qed.
+Print Assumptions C17_double_finite_nonzero_accepted.
+Theorem C17_double_subnormal_accepted : forall x e, 0 < dbl_mag x < 2 ^ 52 -> dbl_error x e = false.
+Proof. exact dbl_subnormal_accepted. Qed.
+Print Assumptions C17_double_subnormal_accepted.
+
+(* regression guard: the rule before 57534b2 (ERANGE alone) rejects the smallest / largest / a negative subnormal *)
+Theorem C17_double_old_rule_refuted :
+  dbl_error_old 1 true = true /\ dbl_error_old (2 ^ 52 - 1) true = true /\ dbl_error_old (2 ^ 63 + 1) true = true /\
+  dbl_error 1 true = false /\ dbl_error (2 ^ 52 - 1) true = false /\ dbl_error (2 ^ 63 + 1) true = false.
+Proof. exact dbl_old_rule_refuted. Qed.
+Print Assumptions C17_double_old_rule_refuted.
 
 (* the same through a configuration file *)
 Theorem C17_file_int_in_range : forall n, INT_MIN <= n <= INT_MAX -> ini_int (print_dec n) = (n, false).
@@ -242,7 +271,7 @@ Print Assumptions C17_save_writes_document.
    ALL stores and argument lists that satisfy roundtrip_ok (ini-safe strings / arguments / key-value keys,
    entry keys distinct up to case (a heading MAY be named like an entry since cfc9e38), ints in INT_MIN..INT_MAX, switch counts
    0..INT_MAX, sizes 0..LLONG_MAX, key-value text consistent with its variable, doubles that libc reads
-   back without ERANGE), all fresh worlds w0 with the same declarations and ARBITRARY variable contents:
+   back without a range error in the sense of 57534b2: not (ERANGE and (zero or infinite))), all fresh worlds w0 with the same declarations and ARBITRARY variable contents:
    all three calls succeed, every saved option variable holds `restored` (part below), the key-value
    texts and the argument list are reproduced. *)
 Theorem C17_save_load_roundtrip : forall strtod fmt16 (w w0 : world) (o o0 : nat) (f : str),
@@ -277,6 +306,32 @@ Theorem C17_roundtrip_values : forall strtod fmt16 w st' it,
   end.
 Proof. exact restored_meaning. Qed.
 Print Assumptions C17_roundtrip_values.
+
+(* doubles (57534b2): the guard holds for EVERY value whose "%.16g" text libc reads back as a finite nonzero number -
+   subnormals included, whether or not ERANGE is raised - and for every value read back without ERANGE; together with
+   C17_save_load_roundtrip / C17_roundtrip_values: such a double comes back as strtod (fmt16 x) *)
+Theorem C17_double_roundtrip_guard : forall strtod fmt16 w it, it_type it = TDouble ->
+  let r := strtod (fmt16 (st_dbl (w_store w) (it_var it))) in
+  (0 < dbl_mag (fst r) < DBL_INF \/ snd r = false) -> value_good strtod fmt16 w it.
+Proof. exact double_value_good. Qed.
+Print Assumptions C17_double_roundtrip_guard.
+
+(* the history that failed before the repair, with a libc that raises ERANGE for the subnormal: accepted on the
+   command line, inside the guard, saved and loaded back bit for bit; zero / infinity with ERANGE stay errors *)
+Theorem C17_double_subnormal_roundtrip :
+  let r := run sub_strtod sub_fmt empty_world dbl_history in
+  skipn 4 (fst r) = [3; 0; 0] /\
+  st_dbl (w_store (snd r)) 0 = sub_bits /\ st_dbl (w_store (snd r)) 32 = sub_bits /\
+  roundtrip_ok_b sub_strtod sub_fmt (snd (run sub_strtod sub_fmt empty_world (firstn 5 dbl_history)))
+                 (get_opts (snd (run sub_strtod sub_fmt empty_world (firstn 5 dbl_history))) 0) = true.
+Proof. exact double_subnormal_roundtrip. Qed.
+Print Assumptions C17_double_subnormal_roundtrip.
+
+Theorem C17_double_range_error_witness :
+  (let r := run zero_strtod sub_fmt empty_world (firstn 5 dbl_history) in skipn 4 (fst r) = [-1] /\ st_dbl (w_store (snd r)) 0 = 0) /\
+  (let r := run inf_strtod sub_fmt empty_world (firstn 5 dbl_history) in skipn 4 (fst r) = [-1] /\ st_dbl (w_store (snd r)) 0 = 0).
+Proof. exact double_range_error_witness. Qed.
+Print Assumptions C17_double_range_error_witness.
 
 (* the conditions can be evaluated: the check does so on every saved state of every history *)
 Theorem C17_roundtrip_guard_sound : forall strtod fmt16 w ob,
